@@ -87,7 +87,7 @@ static void report(const std::string& key, const std::string& msg, const std::st
 // Registry of allocations made inside library calls (pointer -> size/alignment,
 // last virtual time at which the block was seen to be the current block table).
 struct AllocReg {
-  static constexpr size_t N = size_t(1) << 18;
+  static constexpr size_t N = size_t(1) << 17;
   std::atomic<uintptr_t> key[N];   // 0 empty, 1 tombstone
   std::atomic<uint64_t> meta[N];   // size << 16 | alignment
   std::atomic<int64_t> seen[N];    // (vtime ns + 1) last seen current; 0 = never a current table
@@ -96,7 +96,7 @@ struct AllocReg {
   std::atomic<uint64_t> inserted {0};
   std::atomic<bool> overflow {false};
 
-  static size_t hash(uintptr_t p) { return size_t(((p >> 4) * 0x9E3779B97F4A7C15ULL) >> (64 - 18)); }
+  static size_t hash(uintptr_t p) { return size_t(((p >> 4) * 0x9E3779B97F4A7C15ULL) >> (64 - 17)); }
   void insert(void* ptr, size_t size, size_t align) {
     uintptr_t p = reinterpret_cast<uintptr_t>(ptr);
     size_t h = hash(p);
@@ -212,12 +212,12 @@ static void vf_delete(void* p, size_t size, size_t align) noexcept {
 // Element registry keyed by element address.
 constexpr uint32_t ST_LIVE = 1, ST_VISIBLE = 2;
 struct ElemReg {
-  static constexpr size_t N = size_t(1) << 20;
+  static constexpr size_t N = size_t(1) << 18;
   std::atomic<uintptr_t> key[N];
   std::atomic<uint32_t> state[N];
   std::atomic<uint32_t> idx1[N];  // index + 1 the element was handed out for
   std::atomic<uint64_t> used {0};
-  static size_t hash(uintptr_t p) { return size_t(((p >> 3) * 0x9E3779B97F4A7C15ULL) >> (64 - 20)); }
+  static size_t hash(uintptr_t p) { return size_t(((p >> 3) * 0x9E3779B97F4A7C15ULL) >> (64 - 18)); }
   long find(const void* ptr, bool insert) {
     uintptr_t p = reinterpret_cast<uintptr_t>(ptr);
     size_t h = hash(p);
@@ -422,24 +422,41 @@ static bool observe(size_t i, T* p, const char* how) {
 ////////////////////////////////////////////////////////////////////////////////
 // The lock that encodes "no single operation lasts longer than the cooling period":
 // every vector operation holds it shared, the clock jumps under the exclusive side.
-// Writer-preferring (a single writer: the clock thread). acquire/release on purpose:
-// the passing of (virtual) time is the synchronisation the time-based reclamation
-// relies on, so TSan must see jump-separated operations as ordered.
+// One flag per thread instead of a reader count on purpose: a shared counter would make
+// every pair of operations of different threads ordered for TSan (release sequence on the
+// counter) and blind it. With per-thread flags the only edges are worker -> clock thread
+// (flag release / acquire scan) and clock thread -> worker (writer flag): operations of
+// different threads are ordered only when a clock jump lies between them - the passing of
+// (virtual) time is exactly the synchronisation time-based reclamation relies on.
 struct TimeLock {
-  std::atomic<int> readers {0};
-  std::atomic<int> writer {0};
-  void lock_shared() {
+  static constexpr int kSlots = 40;
+  struct alignas(64) Slot {
+    std::atomic<int> in_op {0};
+  };
+  Slot slots[kSlots];
+  alignas(64) std::atomic<int> writer {0};
+  static void backoff(int& spins) {
+    // sleep early: in episodes pinned to 1-3 CPUs spinning waiters would starve the thread they wait for
+    if (++spins < 3) sched_yield();
+    else vf::raw_sleep_us(spins < 50 ? 40 : 200);
+  }
+  void lock_shared(int slot) {
+    auto& f = slots[slot].in_op;
+    int spins = 0;
     for (;;) {
-      while (writer.load(std::memory_order_acquire)) sched_yield();
-      readers.fetch_add(1, std::memory_order_seq_cst);
+      while (writer.load(std::memory_order_acquire)) backoff(spins);
+      f.store(1, std::memory_order_seq_cst);
       if (!writer.load(std::memory_order_seq_cst)) return;
-      readers.fetch_sub(1, std::memory_order_release);
+      f.store(0, std::memory_order_release);
     }
   }
-  void unlock_shared() { readers.fetch_sub(1, std::memory_order_release); }
+  void unlock_shared(int slot) { slots[slot].in_op.store(0, std::memory_order_release); }
   void lock() {
     writer.store(1, std::memory_order_seq_cst);
-    while (readers.load(std::memory_order_seq_cst) != 0) sched_yield();
+    int spins = 0;
+    for (auto& sl : slots) {
+      while (sl.in_op.load(std::memory_order_seq_cst) != 0) backoff(spins);
+    }
   }
   void unlock() { writer.store(0, std::memory_order_release); }
 };
@@ -460,8 +477,18 @@ struct LibScope {
   }
 };
 
+// Reads the current block table pointer of the vector of the running episode (set by Runner).
+static std::atomic<const void* (*)()> g_peek_table {nullptr};
+
 static void hook(const char* name) noexcept {
   CbScope cb;  // counters created inside vf::perturb are not library allocations
+  // A grower about to publish: whatever table is current right now is current at this
+  // virtual time. Stamping it here gives (almost) every table that is ever retired a
+  // "last seen current" time for the free-time oracle, even if no snapshot caught it.
+  if (name[4] == 'b' && strcmp(name, "vec:before_cas") == 0) {
+    auto peek = g_peek_table.load(std::memory_order_relaxed);
+    if (peek != nullptr) note_table_seen_current(peek());
+  }
   vf::perturb(name);
 }
 
@@ -510,6 +537,15 @@ struct Runner {
   const Cfg& cfg;
   V* vec = nullptr;
   explicit Runner(const Cfg& c) : cfg(c) {}
+  static inline std::atomic<V*> s_vec {nullptr};
+  static const void* peek_table() {
+    V* v = s_vec.load(std::memory_order_relaxed);
+    return v ? static_cast<const void*>(v->_block_table.load(std::memory_order_relaxed)) : nullptr;
+  }
+  void set_peek(V* v) {
+    s_vec.store(v, std::memory_order_relaxed);
+    g_peek_table.store(v ? &peek_table : nullptr, std::memory_order_relaxed);
+  }
 
   V* make() {
     LibScope ls(OP_CTOR);
@@ -645,7 +681,7 @@ struct Runner {
         VF_COUNT("obs:episode_cut_registry_full");
         break;
       }
-      if (cfg.cooling) g_time_lock.lock_shared();
+      if (cfg.cooling) g_time_lock.lock_shared(t);
       int64_t vnow = g_vnow_ns.load(std::memory_order_relaxed);
       int x = int(r.below(uint64_t(total)));
       auto take = [&](int w) { bool hit = x >= 0 && x < w; x -= w; return hit; };
@@ -808,7 +844,7 @@ struct Runner {
         use_held(r, held, vnow);
       }
       tl.op = OP_NONE;
-      if (cfg.cooling) g_time_lock.unlock_shared();
+      if (cfg.cooling) g_time_lock.unlock_shared(t);
       g_ops.fetch_add(1, std::memory_order_relaxed);
       vf::progress();
     }
@@ -845,13 +881,13 @@ struct Runner {
       VF_COUNT("obs:clock_jumps");
       if (((now + add) / kNs >> 22) != (sec >> 22)) VF_COUNT("rare:timestamp_16bit_wrap_crossed");
       if (r.chance(3, 4)) {
-        g_time_lock.lock_shared();
+        g_time_lock.lock_shared(logical);
         {
           LibScope ls(OP_GC);
           vec->gc();
         }
         tl.op = OP_NONE;
-        g_time_lock.unlock_shared();
+        g_time_lock.unlock_shared(logical);
       }
       vf::progress();
     }
@@ -884,7 +920,9 @@ struct Runner {
       report("block-size", "block_size() is not the hint rounded up to 2^n",
              vf::fmt("block_size=%zu expected=%zu", vec->block_size(), cfg.bs));
     }
+    set_peek(vec);
     run_phase(ep_seed, 0);
+    set_peek(nullptr);
     if (cfg.move_mid && !vf::failed()) {
       // not thread-safe by contract: done at a quiescent point. Storage must travel with the object.
       V* moved;
@@ -896,7 +934,9 @@ struct Runner {
       destroy(vec);
       vec = moved;
       VF_COUNT("obs:moved_mid_episode");
+      set_peek(vec);
       run_phase(ep_seed, 1);
+      set_peek(nullptr);
     }
     if (!vf::failed()) final_sweep();
     g_dying.store(true, std::memory_order_relaxed);
@@ -1051,7 +1091,8 @@ static void run_episode(uint64_t seed, uint64_t episode, bool cooling) {
   VF_COUNT_N("obs:held_snapshot_uses_after_superseded_older_32s", g_held_superseded_old.load());
   VF_COUNT_N("obs:tables_freed_while_vector_alive", g_tables_freed_live.load());
   VF_COUNT_N("obs:vector_operations", g_ops.load());
-  VF_COUNT(cooling ? "obs:episodes_cooling" : "obs:episodes_grow");
+  if (cooling) VF_COUNT("obs:episodes_cooling");
+  else VF_COUNT("obs:episodes_grow");
   if (nontrivial || episode < 2) {
     CbScope cb;
     vf::sample(vf::fmt("{\"episode\": %lu, \"cfg\": %s, \"indices_observed\": %zu, \"observations\": %lu, "
